@@ -596,6 +596,8 @@ func (gb *gcpBalancer) refresh(ref *subConnRef) {
 	)
 	if err != nil {
 		gb.log.Errorf("failed to create a replacement SubConn with NewSubConn: %v", err)
+		// Let the next unresponsive detection try again.
+		ref.refreshing = false
 		return
 	}
 	gb.refreshingScRefs[sc] = ref
